@@ -27,7 +27,7 @@ def budget(tier):
 
 
 def gen(R, tier):
-    case = resgen.gen_resolvable(R, tier, kinds=('fragset', 'fragset', 'fragset', 'cut', 'levels'))
+    case = resgen.gen_resolvable(R, tier, kinds=('fragset', 'fragset', 'fragset', 'cut', 'levels', 'multicut', 'shared'))
     return case
 
 
